@@ -70,6 +70,7 @@ CASE_TIMEOUT = 20
 LIMIT = 1500        # an "infinite" input gives up after this many values (Runaway)
 FUEL = LIMIT + 200  # loop bound given to the model
 REF_PREFIX = 400    # the reference computation sees this prefix of an infinite input
+MAXRES = 400        # the long run of a case stops after this many results
 
 
 # ----------------------------------------------------------------------------------------
@@ -255,14 +256,20 @@ def one_run(case, k):
     uid = itertools.count()
     els = [build_el(s, uid) for s in case["stages"]]
     st = SrcState()
-    if case.get("via") == "source":
-        # Source(first, *els)() is Sequence(*els).run(first())
-        seq = lena.core.Source(lambda: source(case["n"], st, case.get("pairs", False)), *els)
-        flow = seq()
-    else:
-        src = source(case["n"], st, case.get("pairs", False))
-        seq = lena.core.Sequence(*els)
-        flow = seq.run(src)
+    try:
+        if case.get("via") == "source":
+            # Source(first, *els)() is Sequence(*els).run(first())
+            seq = lena.core.Source(lambda: source(case["n"], st, case.get("pairs", False)), *els)
+            flow = seq()
+        else:
+            src = source(case["n"], st, case.get("pairs", False))
+            seq = lena.core.Sequence(*els)
+            flow = seq.run(src)
+    except Runaway:
+        # an eager implementation consumes an infinite input while the pipeline is being built
+        return st.clock, [], "runaway", st.clock, st.clock, st.alive_log
+    except Exception as e:
+        return st.clock, [], "error:" + exc_name(e), st.clock, st.clock, st.alive_log
     built = st.clock
     res = []
     end = "stopped"
@@ -275,9 +282,8 @@ def one_run(case, k):
                 break
             res.append(proj(v) + [st.clock])
             del v
-            if k is None and len(res) >= 400:
-                end = "toolong"
-                break
+            if k is None and len(res) >= MAXRES:
+                break               # the consumer of the long run gives up (end = "stopped")
     except Runaway:
         end = "runaway"
     except Exception as e:  # an exception of the pipeline is an observable outcome
@@ -338,7 +344,7 @@ def _strip(st):
 def model_requests(case):
     stages = [_strip(s) for s in case["stages"]]
     k = case["K"]
-    reqs = [{"op": "run", "stages": stages, "n": case["n"], "k": 500 if k is None else k, "fuel": FUEL}]
+    reqs = [{"op": "run", "stages": stages, "n": case["n"], "k": MAXRES if k is None else k, "fuel": FUEL}]
     if case["n"] is not None:
         reqs.append({"op": "spec", "stages": stages, "n": case["n"]})
         reqs.append({"op": "den", "stages": stages, "n": case["n"]})
@@ -387,11 +393,13 @@ def need(sf, i):
     return vals[i - 1][1] if i <= len(vals) else cf
 
 
-def ref_den(stages, values):
-    """list semantics: what a draining consumer gets from the finite flow `values`"""
+def ref_den(stages, values, state=None):
+    """list semantics: what a draining consumer gets from the finite flow `values`; `state` holds the
+    counters of Count elements that are run more than once (inside RunIf)"""
+    state = {} if state is None else state
     sf = (0, [(v, j + 1) for j, v in enumerate(values)], len(values) + 1)
     for st in stages:
-        sf = ref_stage(st, sf)
+        sf = ref_stage(st, sf, state)
     return [v for v, _ in sf[1]]
 
 
@@ -433,8 +441,9 @@ def ref_slice(st, sf):
 class _RefFc(object):
     """a fill/compute branch (pre..., Count(name), post...) fed value by value"""
 
-    def __init__(self, b):
+    def __init__(self, b, state):
         self.b = b
+        self.state = state
         self.pre = [{"i": 0, "c": s.get("c0", 0)} for s in b["pre"]]
         self.count = b["c0"]
         self.ctx = {}
@@ -468,16 +477,16 @@ class _RefFc(object):
 
     def compute(self):
         self.ctx[self.b["name"]] = self.count
-        return ref_den(self.b["post"], [(self.count, dict(self.ctx))])
+        return ref_den(self.b["post"], [(self.count, dict(self.ctx))], self.state)
 
 
-def ref_split(st, sf):
+def ref_split(st, sf, state):
     c0, vals, cf = sf
     brs = st["branches"]
     if not brs:
         return sf
     bufsize = st["bufsize"]
-    active = [(b, _RefFc(b) if b["k"] == "fc" else None) for b in brs]
+    active = [(b, _RefFc(b, state) if b["k"] == "fc" else None) for b in brs]
     out = []
     blocks = []
     if bufsize is None:
@@ -491,7 +500,7 @@ def ref_split(st, sf):
         nxt = []
         for b, fc in active:
             if fc is None:
-                out.extend((v, stamp) for v in ref_den(b["stages"], [v for v, _ in blk]))
+                out.extend((v, stamp) for v in ref_den(b["stages"], [v for v, _ in blk], state))
                 nxt.append((b, fc))
             else:
                 stopped = False
@@ -509,11 +518,12 @@ def ref_split(st, sf):
         if fc is not None:
             out.extend((v, cf) for v in fc.compute())
         elif not blocks:
-            out.extend((v, cf) for v in ref_den(b["stages"], []))
+            out.extend((v, cf) for v in ref_den(b["stages"], [], state))
     return (c0, out, cf)
 
 
-def ref_stage(st, sf):
+def ref_stage(st, sf, state=None):
+    state = {} if state is None else state
     c0, vals, cf = sf
     t = st["t"]
     if t == "map":
@@ -536,23 +546,25 @@ def ref_stage(st, sf):
         # one value of look-ahead: a value is handed over when its successor has been pulled, the last one
         # (with the count) when the end has been seen
         out = []
+        total = state.get(id(st), st["c0"]) + len(vals)      # `self.count += count`
+        state[id(st)] = total
         for i, (v, c) in enumerate(vals):
             if i + 1 < len(vals):
                 out.append((v, vals[i + 1][1]))
             else:
-                out.append((_setctx(v, st["name"], st["c0"] + len(vals)), cf))
+                out.append((_setctx(v, st["name"], total), cf))
         return (c0, out, cf)
     if t == "runif":
         p = pred_on_int(st["p"])
         out = []
         for v, c in vals:
             if p(v[0]):
-                out.extend((r, c) for r in ref_den(st["inner"], [v]))
+                out.extend((r, c) for r in ref_den(st["inner"], [v], state))
             else:
                 out.append((v, c))
         return (c0, out, cf)
     if t == "split":
-        return ref_split(st, sf)
+        return ref_split(st, sf, state)
     raise ValueError(t)
 
 
@@ -560,8 +572,9 @@ def reference(case):
     n = case["n"]
     m = REF_PREFIX if n is None else n
     sf = (0, [((i, {}), i + 1) for i in range(m)], m + 1)
+    state = {}
     for st in case["stages"]:
-        sf = ref_stage(st, sf)
+        sf = ref_stage(st, sf, state)
     return sf, m + 1
 
 
@@ -732,19 +745,24 @@ def g_count(rng, names):
     return {"t": "count", "name": "c%d" % next(names) if rng.random() < 0.8 else "count", "c0": rng.choice([0, 0, 0, 5])}
 
 
-def g_stateless(rng, pairs, depth):
+def g_stateless(rng, pairs, depth, names=None):
+    """an element for the inner sequence of a RunIf / a sequence-type branch of a Split; with `names` a Count is
+    allowed (only in a RunIf of the main pipeline: there one element object serves the whole run)"""
     r = rng.random()
+    if names is not None and r < 0.2:
+        return g_count(rng, names)
     if r < 0.4:
         return g_map(rng, pairs)
     if r < 0.65:
         return g_filter(rng)
     if r < 0.9 or depth <= 0:
         return g_slice(rng, hi=3)
-    return g_runif(rng, pairs, depth - 1)
+    return g_runif(rng, pairs, depth - 1, names)
 
 
-def g_runif(rng, pairs, depth):
-    return {"t": "runif", "p": rng.choice(PREDS), "inner": [g_stateless(rng, pairs, depth) for _ in range(rng.randint(0, 2))]}
+def g_runif(rng, pairs, depth, names=None):
+    return {"t": "runif", "p": rng.choice(PREDS),
+            "inner": [g_stateless(rng, pairs, depth, names) for _ in range(rng.randint(0, 2))]}
 
 
 def g_split(rng, pairs, names, infinite=False):
@@ -782,7 +800,7 @@ def g_stage(rng, pairs, names, infinite):
     if r < 0.77:
         return g_count(rng, names)
     if r < 0.87:
-        return g_runif(rng, pairs, 1)
+        return g_runif(rng, pairs, 1, names)
     st = g_split(rng, pairs, names, infinite)
     if not st["copy"] and (pairs or any(b["k"] == "fc" for b in st["branches"])):
         # without copies the branches share the context dictionaries of the values, and Count writes into the
@@ -823,6 +841,8 @@ PALETTE = [
     {"t": "count", "name": "count", "c0": 0},
     {"t": "runif", "p": ["mod", 2, 1], "inner": [{"t": "map", "f": ["add", 10], "impl": "callable"}]},
     {"t": "runif", "p": ["mod", 3, 0], "inner": [{"t": "filter", "p": ["none"]}]},
+    {"t": "runif", "p": ["mod", 2, 0], "inner": [{"t": "count", "name": "ci", "c0": 0},
+                                                 {"t": "map", "f": ["add", 100], "impl": "callable"}]},
     {"t": "split", "bufsize": 2, "copy": True, "branches": [
         {"k": "seq", "stages": [{"t": "map", "f": ["mul", 2], "impl": "callable"}]},
         {"k": "seq", "stages": [{"t": "filter", "p": ["mod", 2, 0]}], "bare": True}]},
@@ -940,7 +960,7 @@ def shrink(case):
 # ---- MANIFEST texts ------------------------------------------------------------------------
 RULE = ("quick and thorough: fixed cases (documented examples; negative Slice over long flows; Split with a "
         "fill/compute branch that stops, over finite and infinite inputs), every single Slice with start, stop in "
-        "{None,-3..3}, step in {None,1,2} over short flows, every ordered pair of a 16-element palette of streaming "
+        "{None,-3..3}, step in {None,1,2} over short flows, every ordered pair of a 17-element palette of streaming "
         "elements over finite and infinite inputs, and seeded random pipelines (0..4 elements: callables, Variable, "
         "Print, Context, UpdateContext, MakeFilename, Filter, Slice, Count, RunIf, Split with sequence and "
         "fill/compute branches; 4000 quick / 60000 thorough; a quarter of them run as Source(input, *elements)()), each with a long run and runs for consumer stop points "
@@ -960,7 +980,7 @@ ASSUMPTIONS = [
     "values are observed through their integer datum and integer-valued top-level context entries; Print, Context, "
     "UpdateContext, MakeFilename are the identity on that projection",
     "object lifetime (weak references) is checked on the real code only; it is not part of the Lean model",
-    "RunIf's inner sequence and sequence-type Split branches contain no Count (they are stateless)",
+    "a RunIf inside a branch of a Split contains no Count (the model gives such a branch no state between blocks)",
 ]
 LEVEL_TEXT = ("Lean 4 theorems about pull-based generator models of the streaming elements, for all pipelines, inputs and "
               "consumer stop points (no bound), tied to /repo by an event-trace correspondence check and a direct "
